@@ -99,7 +99,7 @@ def write(path, obj=None, raw=None):
 ROOT_ROWS = ["accept", "version", "old_rule", "new_rule", "type", "new_malformed", "no_root_delegation", "trusted_malformed", "accept",
              "noisy_reject"]
 DELEG_KINDS = ["ok", "below", "wrongkey", "type_mismatch", "unknown_role", "junk", "edited", "ok", "signatures_list", "trusted_not_delegating",
-               "trusted_malformed", "untrusted_extra_envelope_field"]
+               "trusted_malformed", "untrusted_extra_envelope_field", "openpgp_signed_nonroot", "mixed_raw_and_openpgp"]
 CROSS = ["root_under_nonroot_with_root_role", "keymgr_under_keymgr", "root_raw_signed_under_root"]
 MALFORMED = ["untrusted_not_json", "trusted_not_json", "untrusted_list", "untrusted_scalar", "no_signed", "no_type", "type_not_str",
              "missing_untrusted", "missing_trusted", "empty_file", "swapped", "trusted_is_payload"]
@@ -140,6 +140,14 @@ def gen_pair(rng, cls=None):
         if kind == "wrongkey":
             signers = [U[5]] if U[5] not in km_keys else []
         gmd.sign_env(env, signers, False, rng)
+        if kind == "openpgp_signed_nonroot":
+            # all signatures OpenPGP-wrapped (valid as such): the command checks non-root files in raw mode, like the library default
+            env["signatures"] = {}
+            gmd.sign_env(env, signers, True, rng)
+        if kind == "mixed_raw_and_openpgp":
+            env["signatures"] = {}
+            gmd.sign_env(env, signers[:1], False, rng)
+            gmd.sign_env(env, signers[1:], True, rng)
         if kind == "type_mismatch":
             del trusted["signed"]["delegations"][utype]
             trusted["signed"]["delegations"]["zzz"] = gmd.delegation(km_keys, t)
